@@ -310,6 +310,71 @@ def cgTable (j1 j2 j : Nat) : List (Int × Rat) :=
   (List.range (j + 1)).flatMap fun (r : Nat) => (List.range (j1 + 1)).flatMap fun (s : Nat) => (List.range (j2 + 1)).map fun (t : Nat) =>
     cgSq j1 j2 j ((j1 : Int) - 2 * (s : Int)) ((j2 : Int) - 2 * (t : Int)) ((j : Int) - 2 * (r : Int))
 
+/-! exact orthogonality test for the CG table: every coefficient is `s·√r` (`s ∈ {0,±1}`, `r ≥ 0` rational), a product of two is
+`s s'·√(r r')`; write `√(p/q) = (t/q)·√f` with `p q = t² f`, `f` square-free, and add the rational coefficients `s s' t/q` per `f`. -/
+
+/-- `(t, f)` with `N = t²·f`, `f` square-free (trial division; `fuel` bounds the number of steps) -/
+def sqfreeGo : Nat → Nat → Nat → Nat → Nat × Nat
+  | 0, _, N, t => (t, N)
+  | fuel + 1, d, N, t =>
+    if d * d > N then (t, N)
+    else if N % (d * d) = 0 then sqfreeGo fuel d (N / (d * d)) (t * d)
+    else sqfreeGo fuel (d + 1) N t
+
+def sqfreeDecomp (N : Nat) : Nat × Nat := if N = 0 then (0, 1) else sqfreeGo (N + 64) 2 N 1
+
+/-- `s·√r` as `(c, f)` meaning `c·√f`, `f` square-free -/
+def surdNormal (s : Int) (r : Rat) : Rat × Nat :=
+  let (t, f) := sqfreeDecomp (r.num.toNat * r.den)
+  ((s : Rat) * (t : Rat) / (r.den : Rat), f)
+
+/-- is `Σ_i c_i √f_i = target` with the terms grouped by the square-free radicand (`target` sits in the group `f = 1`)? -/
+def surdSumIs (terms : List (Rat × Nat)) (target : Rat) : Bool :=
+  let fs := (1 :: terms.map (·.2)).eraseDups
+  fs.all fun f => ((terms.filter fun t => t.2 == f).map (·.1)).foldl (· + ·) 0 == (if f = 1 then target else 0)
+
+/-- rows `(j, m)` of the CG table of `(j1, j2)` (doubled) as lists over `m1` (`m2 = m - m1`) -/
+def cgRow (j1 j2 j m : Int) : List (Int × Rat) :=
+  (List.range (j1.toNat + 1)).map fun (s : Nat) => cgSq j1 j2 j (j1 - 2 * (s : Int)) (m - (j1 - 2 * (s : Int))) m
+
+/-- all `(j, m)` labels -/
+def cgLabels (j1 j2 : Nat) : List (Int × Int) :=
+  let lo := if j1 ≥ j2 then j1 - j2 else j2 - j1
+  ((List.range (j1 + j2 + 1)).filter fun j => j ≥ lo && (j - lo) % 2 == 0).flatMap fun j =>
+    (List.range (j + 1)).map fun (r : Nat) => ((j : Int), (j : Int) - 2 * (r : Int))
+
+/-- **orthonormality of the rows** `Σ_{m1 m2} C(j m|m1 m2) C(j' m'|m1 m2) = δ_jj' δ_mm'` (rows with `m ≠ m'` have disjoint supports) -/
+def cgRowsOrthonormal (j1 j2 : Nat) : Bool :=
+  let L := cgLabels j1 j2
+  L.all fun a => L.all fun b =>
+    if a.2 ≠ b.2 then true
+    else
+      let ra := cgRow j1 j2 a.1 a.2; let rb := cgRow j1 j2 b.1 b.2
+      surdSumIs ((ra.zip rb).map fun p => surdNormal (p.1.1 * p.2.1) (p.1.2 * p.2.2)) (if a = b then 1 else 0)
+
+/-- rational part: squares of each row sum to one, and squares over `j` for fixed `(m1, m2)` sum to one (completeness) -/
+def cgSquaresNormalised (j1 j2 : Nat) : Bool :=
+  (cgLabels j1 j2).all (fun a => ((cgRow j1 j2 a.1 a.2).map (·.2)).foldl (· + ·) 0 == 1) &&
+  (List.range (j1 + 1)).all fun (s : Nat) => (List.range (j2 + 1)).all fun (t : Nat) =>
+    let m1 : Int := (j1 : Int) - 2 * (s : Int); let m2 : Int := (j2 : Int) - 2 * (t : Int)
+    let lo := if j1 ≥ j2 then j1 - j2 else j2 - j1
+    (((List.range (j1 + j2 + 1)).filter fun j => j ≥ lo && (j - lo) % 2 == 0).map fun (j : Nat) => (cgSq j1 j2 j m1 m2 (m1 + m2)).2).foldl (· + ·) 0 == 1
+
+/-- `get_irreducible_tensor_operator(S_double)` (`_clebsch_gordan.py:51-65`), block `k_double` (the CG table of `(S,S)` at `j = k`):
+`T[q, m, m'] = √(S+1)·(-1)^k·(-1)^m · C[q, m, S-m']` (`m, m'` are array indices), in signed-square form -/
+def tensorOpTable (S kd : Nat) : List (Int × Rat) :=
+  (List.range (kd + 1)).flatMap fun (r : Nat) => (List.range (S + 1)).flatMap fun (mi : Nat) => (List.range (S + 1)).map fun (mj : Nat) =>
+    let c := cgSq S S kd ((S : Int) - 2 * (mi : Int)) ((S : Int) - 2 * ((S - mj : Nat) : Int)) ((kd : Int) - 2 * (r : Int))
+    let sg : Int := (if (kd / 2) % 2 = 0 then 1 else -1) * (if mi % 2 = 0 then 1 else -1)
+    (sg * c.1, ((S : Rat) + 1) * c.2)
+
+/-- every component `T^k_q` has squared Hilbert–Schmidt norm `S_double + 1` (rational arithmetic on the squares) -/
+def tensorOpNormalised (S : Nat) : Bool :=
+  (List.range (S + 1)).all fun (k : Nat) =>
+    let tab := tensorOpTable S (2 * k)
+    (List.range (2 * k + 1)).all fun (r : Nat) =>
+      (((tab.drop (r * (S + 1) * (S + 1))).take ((S + 1) * (S + 1))).map (·.2)).foldl (· + ·) 0 == (S : Rat) + 1
+
 /-- `get_rational_orthogonal2_matrix` (`_lie.py:287-293`) over the rationals: `[[ct, st], [-st, ct]]`. -/
 def rationalOrthogonal2 (m n : Int) : List Rat :=
   let a : Rat := m * m - n * n
